@@ -351,8 +351,11 @@ def run(ctx, chk, tier="quick"):
                             ops.append(op.__name__)
                     if len(ops) == 2:
                         closed = (sorted(ops), n)
-        chk.ob("C10.O5", closed is not None and closed[0] == ["GtE", "LtE"], where_of(wl, closed[1] if closed else wl.node),
-               "validity test: %s" % (ast.unparse(closed[1]) if closed else "not found"),
+        if closed is None:
+            chk.indeterminate("C10.O5", where_of(wl, wl.node), "validity test of grid instants against (start, through) not found: the gap labelling has another shape")
+        else:
+          chk.ob("C10.O5", closed[0] == ["GtE", "LtE"], where_of(wl, closed[1]),
+               "validity test: %s" % ast.unparse(closed[1]),
                "start <= t <= through: the samples bounding a gap are valid, instants strictly inside it are not",
                key="populate_water_level|validity-closed",
                why="a half-open test drops the last sample before a gap (or the first after it)")
@@ -375,7 +378,10 @@ def run(ctx, chk, tier="quick"):
                     ldesc = ast.unparse(n)[:110]
                 except NotAlgebraic:
                     pass
-        chk.ob("C10.O5", lab_ok, where_of(wl, wl.node), "intervals = %s" % ldesc,
+        if ldesc == "valid_intervals construction not found":
+            chk.indeterminate("C10.O5", where_of(wl, wl.node), "construction of the labelled validity intervals not found")
+        else:
+          chk.ob("C10.O5", lab_ok, where_of(wl, wl.node), "intervals = %s" % ldesc,
                "consecutive boundary pairs (b[i], b[i+1]) for i = 0, 2, 4, ... labelled i // 2 + 1",
                key="populate_water_level|labels", why="stretches separated by gaps must carry distinct labels starting from 1")
         # boundaries: [grid[0]] + pairs(zeta_t[gap], zeta_t[gap + 1]) + [grid[-1]]
@@ -398,10 +404,48 @@ def run(ctx, chk, tier="quick"):
                         for x in ast.walk(wl.node):
                             if isinstance(x, ast.Assign) and isinstance(x.targets[0], ast.Name) and x.targets[0].id == gname:
                                 gt_ = ast.unparse(x.value).replace(" ", "")
-                                bnd_ok = bnd_ok and "nonzero(" in gt_ and ("!=" in gt_ or ">" in gt_) and "min()" in gt_
-        chk.ob("C10.O5", bnd_ok, where_of(wl, wl.node), "boundaries = %s" % bdesc,
+                                gp_ok = False
+                                for cmp_ in ast.walk(x.value):
+                                    if isinstance(cmp_, ast.Compare) and len(cmp_.ops) == 1:
+                                        try:
+                                            from ..norm import py_compare
+                                            opn, pn = py_compare(cmp_, callname=lambda c: "MIN" if isinstance(c.func, ast.Attribute) and c.func.attr == "min" else None)
+                                            atoms_ = sorted(pn.atoms())
+                                            # steps - MIN(steps) compared with 0 by != or >
+                                            gp_ok = len(atoms_) == 2 and any(a_.startswith("MIN(") for a_ in atoms_) and \
+                                                all(abs(pn.coeff_of_atom(a_).const_value()) == 1 for a_ in atoms_) and pn.without_atom(atoms_[0]).without_atom(atoms_[1]).is_zero() \
+                                                and opn in ("!=", ">", "<")
+                                        except Exception:
+                                            gp_ok = False
+                                bnd_ok = bnd_ok and "nonzero(" in gt_ and gp_ok
+        if bdesc == "boundary list not found":
+            chk.indeterminate("C10.O5", where_of(wl, wl.node), "boundary list of the validity intervals not found")
+        else:
+          chk.ob("C10.O5", bnd_ok, where_of(wl, wl.node), "boundaries = %s" % bdesc,
                "[first grid time] + (sample before each gap, sample after it)... + [last grid time], gaps = source steps larger than the smallest",
                key="populate_water_level|boundaries")
+        # unlabelled instants: the sentinel written is the sentinel tested, and it is not a label (labels start at 1)
+        sent_set = sent_test = None
+        for n in ast.walk(wl.node):
+            if isinstance(n, ast.Assign) and isinstance(n.targets[0], ast.Subscript) and isinstance(n.targets[0].slice, ast.Slice) \
+                    and n.targets[0].slice.lower is None and n.targets[0].slice.upper is None:
+                try:
+                    sent_set = (n.targets[0].value.id if isinstance(n.targets[0].value, ast.Name) else None, py_poly(n.value).const_value(), n)
+                except Exception:
+                    pass
+            if isinstance(n, ast.Assign) and isinstance(n.value, ast.Compare) and len(n.value.ops) == 1 and isinstance(n.value.ops[0], (ast.NotEq, ast.Gt, ast.GtE)):
+                try:
+                    sent_test = (n.value.left.id if isinstance(n.value.left, ast.Name) else None, type(n.value.ops[0]).__name__,
+                                 py_poly(n.value.comparators[0]).const_value(), n)
+                except Exception:
+                    pass
+        if sent_set is not None and sent_test is not None and sent_set[0] == sent_test[0]:
+            sv_, tv_ = sent_set[1], sent_test[2]
+            opn = sent_test[1]
+            oks = (opn == "NotEq" and sv_ == tv_ and sv_ < 1) or (opn == "Gt" and sv_ <= tv_ < 1) or (opn == "GtE" and sv_ < tv_ <= 1)
+            chk.ob("C10.O5", oks, where_of(wl, sent_test[3]), "unlabelled instants carry %s; kept when label %s %s" % (sv_, {"NotEq": "!=", "Gt": ">", "GtE": ">="}[opn], tv_),
+                   "the sentinel written is the one tested, and it is not a label", key="populate_water_level|sentinel",
+                   why="with another sentinel every instant inside a gap passes the test and gets an interpolated water level")
         # UPDATE binding order
         up = [s for s in ctx.sites_in(wl) if s.stmt is not None and s.stmt.kind == "update" and s.stmt.table == "grid_time"]
         if len(up) == 1 and isinstance(up[0].params_node, ast.Call) and len(up[0].params_node.args) == 2:
